@@ -517,6 +517,7 @@ def run_save(case, count_at=None):
 
         # ---- follow-up (session clause): a later fault-free save and load behave normally
         if any_failed:
+            pre_f = slots(base)
             try:
                 do_save(m, base, cont)
             except (KeyboardInterrupt, SystemExit):
@@ -530,6 +531,20 @@ def run_save(case, count_at=None):
                 if got != want:
                     bad("session", {"read_model after the next fault-free save": got},
                         "description-equal to the live model (%s)" % want)
+                # ordered (follow-up): the successful save after the failure keeps the complete generations that
+                # were on disk before it, most recent first, as _BAK1.._BAK3 (judged when nothing but complete
+                # generations was on disk, i.e. no half-written directory at <path>)
+                if all(s is None or s["digest"] in known for s in pre_f[:NSLOTS]):
+                    gens = sorted({s["digest"] for s in pre_f[:NSLOTS] if s is not None}, key=lambda d: -known[d][0])
+                    post_f = slots(base)
+                    kept = [post_f[s]["digest"] if post_f[s] else None for s in range(1, 4)]
+                    if kept[:len(gens[:3])] != gens[:3]:
+                        bad("ordered", {"slots after the fault-free save that followed the failure":
+                                        [show(x, known, None) for x in post_f],
+                                        "slots before it": [show(x, known, None) for x in pre_f]},
+                            "the complete generations kept before it, most recent first, in _BAK1.._BAK3")
+                    else:
+                        meas("followup_backups_judged")
             s2 = session_obs()
             if s2["ser"] or s2["ioser"]:
                 bad("session", "serializing flag set after the follow-up save", "None")
